@@ -256,14 +256,6 @@ inline Result minimise(const J& plan0, const std::string& sig, const J& context0
                         }
                     }
                 }
-                if (ops->a[i].gets("op") == "save_gds" && ops->a[i].geti("max_points") != 0) {
-                    J cand = plan;
-                    ops_of(cand)->a[i].set("max_points", 0);
-                    if (M.test(cand)) {
-                        plan = cand;
-                        ops = ops_of(plan);
-                    }
-                }
             }
         }
         // 4. models: cells, then element lists, then element details
